@@ -105,6 +105,12 @@ pub(crate) mod verif_fs {
         n
     }
 
+    /// RelationStrategy::Current never looks at another resource's node (also keeps the global node map out of the formula)
+    fn no_node_lookup_expected(_name: &String) -> Option<Arc<crate::core::stat::ResourceNode>> {
+        kani::assert(false, "RelationStrategy::Current must not look up another resource's node");
+        None
+    }
+
     /// can_pass_check, RelationStrategy::Current: with a node the controller's verdict is returned unchanged and the
     /// controller is consulted exactly once with the caller's batch; without a node the request passes, nothing consulted.
     #[kani::proof]
@@ -113,6 +119,7 @@ pub(crate) mod verif_fs {
     #[kani::stub(std::backtrace::Backtrace::capture, std::backtrace::Backtrace::disabled)]
     #[kani::stub(anyhow::Error::msg, vs::no_error_expected)]
     #[kani::stub(Controller::perform_checking, contract_perform_checking)]
+    #[kani::stub(crate::core::stat::node_storage::get_resource_node, no_node_lookup_expected)]
     fn fs_can_pass_check_current() {
         any_verdicts();
         let tc = mk_ctl(0, RelationStrategy::Current);
@@ -195,6 +202,7 @@ pub(crate) mod verif_fs {
             assert!(vs::SLEEP_CALLS == sleeps);
             assert!(vs::SLEEP_TOTAL_NS == slept);
         }
+        std::mem::forget(ctx); // see verif_support::NOTE_NO_CTX_DROP
         kani::cover!(first_block.is_some() && sleeps > 0);
         kani::cover!(first_block.is_none() && sleeps == N as u32);
         kani::cover!(first_block == Some(N - 1));
